@@ -53,6 +53,17 @@ CHECKS = {
         'sheet predicts, comment nodes must be inserted comments. Exhaustive within the deviation bound.',
         'Trusted: mc/model/cssast.py (site table = where the CSS grammar has S*, which words are case-insensitive) and mc/model/proj.py (what is meaning, what is presentation).',
     ),
+    'C08': (
+        'exploration',
+        'exhaustive configuration table: (override x per-level transport charset x BOM/@charset/none x bytes/text x fetcher answer) over import chains of depth <=2/3 with mutually distinguishable encodings, against a precedence-ladder reference; plus (position x character x target encoding) serialisation table',
+        'DESIGN.md 3/C08',
+        'Every row of the precedence table for import chains of depth 1-2 (quick) / 1-3 (thorough), top sheet from parseString or parseUrl, is run '
+        'through the real parser with a virtual fetcher; marker bytes that decode differently under each of eleven encodings make the decoder '
+        'actually used observable at every level, which is compared with the reference ladder (override > transport > BOM/@charset > referring sheet > '
+        'UTF-8). Every (text position x unrepresentable character x target encoding x initial @charset state) is serialised, decoded in the reported '
+        'encoding and reparsed; every sequence of <=2/3 encoding assignments is explored. Exhaustive over the stated tables.',
+        'Trusted: mc/model/ref_ladder.py (the ladder as stated in the property), Python codecs; utf-8-sig == utf-8; leading U+FEFF in text-delivered content is not a BOM.',
+    ),
 }
 
 PENDING = {}
